@@ -50,6 +50,7 @@ class Built:
 
     def __init__(self, cfg, entropy, given_W=None, given_H=None):
         self.cfg = cfg
+        self.w0 = None
         dtype = getattr(torch, cfg['dtype'])
         size = cfg['size']
         t0, t1 = cfg['t0'], cfg['t1']
@@ -66,14 +67,16 @@ class Built:
             self.top = self.obj
         elif w == 'path':
             np.random.seed(entropy % (2 ** 31))
-            self.obj = torchsde.BrownianPath(t0=t0, w0=torch.zeros(size, dtype=dtype))
+            self.w0 = torch.full(size, 1.5, dtype=dtype)  # non-zero initial value: point evaluations add it
+            self.obj = torchsde.BrownianPath(t0=t0, w0=self.w0)
             self.top = self.obj._interval
         elif w == 'tree':
-            kw = dict(t0=t0, w0=torch.zeros(size, dtype=dtype), t1=t1, entropy=entropy)
+            self.w0 = torch.full(size, 1.5, dtype=dtype)
+            kw = dict(t0=t0, w0=self.w0, t1=t1, entropy=entropy)
             if cfg['tol']:
                 kw['tol'] = cfg['tol']
             if cfg['given'] == 'W':
-                kw['w1'] = given_W
+                kw['w1'] = given_W + self.w0
             self.obj = torchsde.BrownianTree(**kw)
             self.top = self.obj._interval
         else:
@@ -85,17 +88,25 @@ class Built:
     def q(self, a, b, via=None):
         """Query interval [a,b] of the forward time axis; via 'r' goes through ReverseBrownian (same interval)."""
         via = via or self.cfg['via']
+        if via == 'p':
+            # point evaluation (single-argument form): value of the path at time b; a is ignored
+            import warnings
+            with warnings.catch_warnings():
+                warnings.simplefilter('ignore')
+                out = self.obj(b)
+            return (out.clone(), None, None)
         if via == 'd':
             out = self.obj(a, b, return_U=self.H, return_A=self.A)
         else:
             out = self.rev(-b, -a, return_U=self.H, return_A=self.A)
+        # snapshot: the library may hand out its stored tensors by reference; answers are compared later
         if not self.H and not self.A:
-            return (out, None, None)
+            return (out.clone(), None, None)
         if self.H and self.A:
-            return tuple(out)
+            return tuple(x.clone() for x in out)
         if self.H:
-            return (out[0], out[1], None)
-        return (out[0], None, out[1])
+            return (out[0].clone(), out[1].clone(), None)
+        return (out[0].clone(), None, out[1].clone())
 
 
 def valid_cfg(cfg):
@@ -123,6 +134,8 @@ def expand(op):
         return [('r', op[1], op[2])]
     if k == 'qd':
         return [('d', op[1], op[2])]
+    if k == 'p':
+        return [('p', op[1], op[1])]
     if k == 'sweepF':
         _, t, n, h = op
         return [('d', t + i * h, t + (i + 1) * h) for i in range(n)]
@@ -139,12 +152,19 @@ def expand(op):
     raise HarnessError(f"unknown op {op}")
 
 
-def grid_ops(points, zero=True):
+def grid_ops(points, zero=True, point_eval=False):
     pts = sorted(points)
     ops = [['q', a, b] for a, b in itertools.combinations(pts, 2)]
     if zero:
         ops += [['q', a, a] for a in pts]
+    if point_eval:
+        ops += [['p', a] for a in pts]
     return ops
+
+
+def shift_grid(grid, t0, t1):
+    """Affine image of a grid on [0,1] in [t0,t1] (exact for dyadic points and dyadic t0, t1)."""
+    return [t0 + g * (t1 - t0) for g in grid]
 
 
 def edge_ops(points, tol):
@@ -152,9 +172,9 @@ def edge_ops(points, tol):
     pts = sorted(points)
     ops = []
     for a, b in zip(pts[:-1], pts[1:]):
-        ops.append(['q', math.nextafter(b, 0.0), b])
-        ops.append(['q', a, math.nextafter(b, 0.0)])
-        ops.append(['q', math.nextafter(a, 2.0), b])
+        ops.append(['q', math.nextafter(b, -math.inf), b])
+        ops.append(['q', a, math.nextafter(b, -math.inf)])
+        ops.append(['q', math.nextafter(a, math.inf), b])
         if tol:
             ops.append(['q', a, a + tol / 3])
             ops.append(['q', b - tol / 3, b])
@@ -267,7 +287,7 @@ class Replay:
         self.max_nodes_per_call = 0
         self.max_depth = 0
         self.max_cache = 0
-        self.seam = seams.NoiseSeam(mode, K, perturb)
+        self.seam = seams.NoiseSeam(mode, K, perturb, B=(cfg['size'][0] if len(cfg['size']) == 2 else 1))
         self.meters = seams.Meters(budget)
         self.b = None
         self.given = given or (None, None)
@@ -333,9 +353,14 @@ class Replay:
             self.problems.append(('exception', dict(at='query', exc=type(e).__name__, q=[via, a, b], nq=self.nq,
                                                     msg=str(e)[:200])))
             return None
-        if b > a:
+        if b > a and via != 'p':
             self.min_len = (b - a) if self.min_len is None else min(self.min_len, b - a)
         self._meter_after('query')
+        for name, x in zip('WUA', ans):
+            if x is not None and not bool(torch.isfinite(x).all()):
+                self.problems.append(('nonfinite', dict(at='query', exc='nonfinite', q=[via, a, b], nq=self.nq,
+                                                        which=name)))
+                break
         if check_repeat and self.mode != 'labelled':
             key = (via, hexf(a), hexf(b))
             if key in self.first:
